@@ -1408,3 +1408,34 @@ package kapacitor
 //@   loop 2
 //@     modifies elems(points)
 //@     invariant 0 <= _i && _i <= len(points)
+
+
+// ---------------------------------------------------------------- flatten.go (C10)
+// flatten builds each output field name in a scratch buffer taken from a pool: the point's
+// dimension tag values joined by the delimiter, then the field name. The name built for a point
+// must not contain anything left over from another point: the scratch buffer is empty whenever a
+// point's processing starts -- also after a point that was skipped for a missing tag -- and it
+// goes back to the pool empty.
+// (The only sync.Pool reached from functions under contract is FlattenNode.bufPool, whose New
+// returns an empty *bytes.Buffer; buffers are put back empty -- that is the last clause below.)
+//@ func =(*sync.Pool).Get
+//@   trusted
+//@   modifies nothing
+//@   ensures typeis(result, *bytes.Buffer) && as(result, *bytes.Buffer) != nil && gf(as(result, *bytes.Buffer), content, string) == ""
+//@ func =(*sync.Pool).Put
+//@   trusted
+//@   modifies nothing
+//@ func (*FlattenNode).flatten
+//@   props C10
+//@   requires n != nil && n.f != nil && n.diag != nil
+//@   requires forall i int :: 0 <= i && i < len(points) ==> points[i] != nil
+//@   ensures [scratch-buffer-returned-empty] len(points) > 0 ==> gf(fieldPrefix, content, string) == ""
+//@   loop 1
+//@     invariant n.f != nil && n.diag != nil && fieldPrefix != nil && fields != nil && gf(fieldPrefix, content, string) == ""
+//@     invariant forall i int :: 0 <= i && i < len(points) ==> points[i] != nil
+//@   loop 2
+//@     invariant n.f != nil && n.diag != nil && fieldPrefix != nil && fields != nil
+//@     invariant forall i int :: 0 <= i && i < len(points) ==> points[i] != nil
+//@   loop 3
+//@     invariant n.f != nil && n.diag != nil && fieldPrefix != nil && fields != nil
+//@     invariant forall i int :: 0 <= i && i < len(points) ==> points[i] != nil
